@@ -496,7 +496,7 @@ theorem getAddr_ok (cfg : Cfg) (w : World) (g : Ghost) (n : Nat) (nid : String) 
 /-! ### Forwarding to the source node -/
 
 theorem fwd_ok (cfg : Cfg) (w : World) (g : Ghost) (n : Nat) (tid : String) (hI : InvS cfg.backend w g)
-    (hn : wfNode cfg.backend n = true) :
+    (hB : w.bridges = g.bridges) (hn : wfNode cfg.backend n = true) :
     check cfg g (.fwd n tid) (forwardTarget cfg w n tid).2 = true ∧
     InvS cfg.backend (forwardTarget cfg w n tid).1 g ∧
     (forwardTarget cfg w n tid).1.bridges = w.bridges := by
@@ -506,7 +506,8 @@ theorem fwd_ok (cfg : Cfg) (w : World) (g : Ghost) (n : Nat) (tid : String) (hI 
   rw [hfst]
   refine ⟨?_, hI', hb⟩
   unfold forwardTarget
-  generalize lookupWaitingTunnel cfg w n tid = L at hl hI'
+  have hB' : (lookupWaitingTunnel cfg w n tid).1.bridges = g.bridges := hb.trans hB
+  generalize lookupWaitingTunnel cfg w n tid = L at hl hI' hB'
   obtain ⟨w', res⟩ := L
   simp only [check] at hl ⊢
   cases hg : g.tunnels tid with
@@ -525,6 +526,11 @@ theorem fwd_ok (cfg : Cfg) (w : World) (g : Ghost) (n : Nat) (tid : String) (hI 
         have ha := getAddr_ok cfg w' g n r.sourceNodeID hI' hn
         simp only [check, hsrc] at ha
         simp only [hsrc]
+        simp only at hB'
+        by_cases hloc : (t.data.sourceNodeID == nodeName n) = true
+        · simp only [hloc, if_true, hB']
+          cases g.bridges n tid <;> simp
+        simp only [hloc, Bool.false_eq_true, if_false]
         cases hga : g.addrs t.data.sourceNodeID with
         | none =>
           rw [hga] at ha
@@ -546,6 +552,110 @@ theorem fwd_ok (cfg : Cfg) (w : World) (g : Ghost) (n : Nat) (tid : String) (hI 
     · simp only [hlive, Bool.false_eq_true, if_false] at hl ⊢
       cases res <;> simp_all [notResolved]
 
+/-! ### Polling lookup -/
+
+theorem lookup_empty (cfg : Cfg) (w : World) (n : Nat) : lookupWaitingTunnel cfg w n "" = (w, .errParam) := by
+  simp [lookupWaitingTunnel]
+
+theorem lookup_ne_errParam (cfg : Cfg) (w : World) (n : Nat) (tid : String) (he : tid ≠ "")
+    (hk : storeIdx cfg.backend n (C09.makeKey tid) = some (home cfg.backend)) :
+    (lookupWaitingTunnel cfg w n tid).2 ≠ .errParam := by
+  rw [lookup_eval cfg w n tid he hk]
+  repeat' split
+  all_goals simp
+
+/-- What a single lookup answers, in terms of the specification state. -/
+theorem look_by_spec (cfg : Cfg) (w : World) (g : Ghost) (n : Nat) (tid : String) (hI : InvS cfg.backend w g)
+    (hn : wfNode cfg.backend n = true) :
+    (∀ t, liveReg cfg g tid = some t → isFoundAs t (lookupWaitingTunnel cfg w n tid).2 = true) ∧
+    (liveReg cfg g tid = none → tid ≠ "" →
+      (lookupWaitingTunnel cfg w n tid).2 = .notFound ∨ (lookupWaitingTunnel cfg w n tid).2 = .expired) := by
+  obtain ⟨hl, _, _⟩ := look_ok cfg w g n tid hI hn
+  simp only [check] at hl
+  constructor
+  · intro t ht
+    simp only [liveReg] at ht
+    cases hg : g.tunnels tid with
+    | none => simp [hg] at ht
+    | some t' =>
+      rw [hg] at ht hl
+      by_cases hlv : liveT cfg.backend g t' = true
+      · simp only [hlv, if_true, Option.some.injEq] at ht hl
+        subst ht
+        cases hres : (lookupWaitingTunnel cfg w n tid).2 <;> simp_all [isFoundAs]
+      · simp [hlv] at ht
+  · intro hnone he
+    have hne := lookup_ne_errParam cfg w n tid he (storeIdx_makeKey cfg.backend n tid hn)
+    have hnr : notResolved (lookupWaitingTunnel cfg w n tid).2 = true := by
+      simp only [liveReg] at hnone
+      cases hg : g.tunnels tid with
+      | none => simpa [hg] using hl
+      | some t' =>
+        rw [hg] at hnone hl
+        by_cases hlv : liveT cfg.backend g t' = true
+        · simp [hlv] at hnone
+        · simpa [hlv] using hl
+    cases hres : (lookupWaitingTunnel cfg w n tid).2 <;> simp_all [notResolved]
+
+theorem poll_ok (cfg : Cfg) (g : Ghost) (n : Nat) (tid : String) (hn : wfNode cfg.backend n = true) :
+    ∀ (k : Nat) (w : World), InvS cfg.backend w g →
+      check cfg g (.pollStart n tid k) (pollLoop cfg n tid k w).2 = true ∧
+      InvS cfg.backend (pollLoop cfg n tid k w).1 g ∧
+      (pollLoop cfg n tid k w).1.bridges = w.bridges := by
+  intro k
+  induction k with
+  | zero => intro w hI; exact ⟨by simp [pollLoop, check], hI, rfl⟩
+  | succ k ih =>
+    intro w hI
+    obtain ⟨_, hI', hb⟩ := look_ok cfg w g n tid hI hn
+    obtain ⟨hlive, hdead⟩ := look_by_spec cfg w g n tid hI hn
+    cases hr : liveReg cfg g tid with
+    | some t =>
+      have hf := hlive t hr
+      cases hres : (lookupWaitingTunnel cfg w n tid).2 <;> simp_all [isFoundAs, pollLoop, check]
+    | none =>
+      by_cases he : tid = ""
+      · subst he
+        simp [pollLoop, lookup_empty, check, hr, hI]
+      · rcases hdead hr he with h | h
+        · obtain ⟨c1, c2, c3⟩ := ih _ hI'
+          have hp : (pollLoop cfg n tid k (lookupWaitingTunnel cfg w n tid).1).2 = .pending := by
+            simp only [check, hr, he, beq_iff_eq] at c1
+            by_cases hk0 : k = 0
+            · subst hk0; rfl
+            · simpa [hk0] using c1
+          simp only [pollLoop, h]
+          exact ⟨by simp [check, hr, he, hp], c2, c3.trans hb⟩
+        · obtain ⟨c1, c2, c3⟩ := ih _ hI'
+          have hp : (pollLoop cfg n tid k (lookupWaitingTunnel cfg w n tid).1).2 = .pending := by
+            simp only [check, hr, he, beq_iff_eq] at c1
+            by_cases hk0 : k = 0
+            · subst hk0; rfl
+            · simpa [hk0] using c1
+          simp only [pollLoop, h]
+          exact ⟨by simp [check, hr, he, hp], c2, c3.trans hb⟩
+
+theorem pollEnd_ok (cfg : Cfg) (w : World) (g : Ghost) (n : Nat) (tid : String) (hI : InvS cfg.backend w g)
+    (hn : wfNode cfg.backend n = true) :
+    check cfg g (.pollEnd n tid) (pollEnd cfg w n tid).2 = true ∧
+    InvS cfg.backend (pollEnd cfg w n tid).1 g ∧ (pollEnd cfg w n tid).1.bridges = w.bridges := by
+  obtain ⟨c1, c2, c3⟩ := poll_ok cfg g n tid hn 1 w hI
+  have hfst : (pollEnd cfg w n tid).1 = (pollLoop cfg n tid 1 w).1 := by
+    unfold pollEnd; split <;> rfl
+  rw [hfst]
+  refine ⟨?_, c2, c3⟩
+  unfold pollEnd
+  simp only [check] at c1 ⊢
+  cases hr : liveReg cfg g tid with
+  | some t =>
+    rw [hr] at c1
+    cases hres : (pollLoop cfg n tid 1 w).2 <;> simp_all [isFoundAs]
+  | none =>
+    rw [hr] at c1
+    by_cases he : tid = ""
+    · cases hres : (pollLoop cfg n tid 1 w).2 <;> simp_all
+    · cases hres : (pollLoop cfg n tid 1 w).2 <;> simp_all
+
 /-! ### Clocks -/
 
 theorem RelT_mono (b : Backend) {wall wall' : Nat} (h : wall ≤ wall') (go : Option GT) (eo : Option Entry)
@@ -565,6 +675,22 @@ theorem InvS_bridges_w (b : Backend) (w : World) (g : Ghost) (x : Nat → String
 
 theorem InvS_bridges_g (b : Backend) (w : World) (g : Ghost) (x : Nat → String → Bool) (h : InvS b w g) :
     InvS b w { g with bridges := x } := ⟨h.wall, h.rclk, h.tun, h.adr, h.gwf, h.noEmpty⟩
+
+/-! ### Restart -/
+
+theorem restart_ok (cfg : Cfg) (w : World) (g : Ghost) (n : Nat) (hI : Inv cfg.backend w g)
+    (hb : (cfg.backend != .hybridLocal) = true) :
+    Inv cfg.backend (restartNode cfg w n) { g with bridges := fun m t => if m = n then false else g.bridges m t } := by
+  obtain ⟨hS, hB⟩ := hI
+  have hh : home cfg.backend = 0 := by
+    simp only [bne_iff_ne, ne_eq] at hb
+    simp [home, hb]
+  have hst : (restartNode cfg w n).stores (home cfg.backend) = w.stores (home cfg.backend) := by
+    simp [restartNode, hh]
+  refine ⟨⟨hS.wall, hS.rclk, ?_, ?_, hS.gwf, hS.noEmpty⟩, ?_⟩
+  · intro tid; rw [hst]; exact hS.tun tid
+  · intro nid; rw [hst]; exact hS.adr nid
+  · simp [restartNode, hB]
 
 theorem step_ok (cfg : Cfg) (w : World) (g : Ghost) (e : Ev) (hI : Inv cfg.backend w g) (hwf : wfEv cfg.backend e = true) :
     check cfg g e (step cfg w e).2 = true ∧ Inv cfg.backend (step cfg w e).1 (gstep cfg g e) := by
@@ -625,9 +751,20 @@ theorem step_ok (cfg : Cfg) (w : World) (g : Ghost) (e : Ev) (hI : Inv cfg.backe
   | getAddr n nid =>
     simp only [wfEv] at hwf
     exact ⟨getAddr_ok cfg w g n nid hS hwf, hS, hB⟩
+  | pollStart n tid k =>
+    simp only [wfEv] at hwf
+    obtain ⟨h1, h2, h3⟩ := poll_ok cfg g n tid hwf k w hS
+    exact ⟨h1, h2, by rw [show (step cfg w (.pollStart n tid k)).1 = (pollLoop cfg n tid k w).1 from rfl, h3]; exact hB⟩
+  | pollEnd n tid =>
+    simp only [wfEv] at hwf
+    obtain ⟨h1, h2, h3⟩ := pollEnd_ok cfg w g n tid hS hwf
+    exact ⟨h1, h2, by rw [show (step cfg w (.pollEnd n tid)).1 = (pollEnd cfg w n tid).1 from rfl, h3]; exact hB⟩
+  | restart n =>
+    simp only [wfEv] at hwf
+    exact ⟨by simp [step, check], restart_ok cfg w g n ⟨hS, hB⟩ hwf⟩
   | fwd n tid =>
     simp only [wfEv] at hwf
-    obtain ⟨h1, h2, h3⟩ := fwd_ok cfg w g n tid hS hwf
+    obtain ⟨h1, h2, h3⟩ := fwd_ok cfg w g n tid hS hB hwf
     exact ⟨h1, h2, by rw [show (step cfg w (.fwd n tid)).1 = (forwardTarget cfg w n tid).1 from rfl, h3]; exact hB⟩
 
 theorem Inv_init (b : Backend) : Inv b World.init Ghost.init :=
